@@ -451,12 +451,14 @@ class ModuleNormaliser:
         static = any(isinstance(d, ast.Name) and d.id == "staticmethod" for d in helper.decorator_list)
         clsm = any(isinstance(d, ast.Name) and d.id == "classmethod" for d in helper.decorator_list)
         mapping = {}
-        if recv is not None and not static:
+        unbound = recv is not None and recv not in ("self", "cls") and not static and not clsm
+        if recv is not None and not static and not unbound:
             if not params:
                 return None
             first = params[0]
             mapping[first] = ast.Name(id=recv, ctx=ast.Load())
             params = params[1:]
+        # `Class.method(obj, ...)`: the instance is passed explicitly and binds the first parameter
         if any(isinstance(x, ast.Starred) for x in call.args) or any(k.arg is None for k in call.keywords):
             return None
         if len(call.args) > len(params):
